@@ -303,7 +303,7 @@ def family_typed(tier):
         if not th and j >= 4:
             break
         for t in ("delta", "cumulative"):
-            for L in ((0, 2, 3) if th else ((0, 3) if t == "delta" else (0, 2))):
+            for L in ((0, 2, 3) if th and j < 4 else ((0, 3) if t == "delta" else (0, 2))):
                 out.append(cfg(L, t, [inst("i1", k, num)], [view("i1", keep=["a"])]))
             out.append(cfg((0, 3)[j % 2], t, [inst("i1", k, num)], [view("i*", keep=["b"])]))
         out.append(cfg((3, 0)[j % 2], ("delta", "cumulative")[j % 2], [inst("i1", k, num)]))
@@ -316,7 +316,7 @@ def family_typed(tier):
 
 
 SETS_TYPED = [{"a": 1001, "b": 1}, {"a": 2001, "b": 1}, {"a": 3001, "b": 1}, {"a": 4001, "b": 1}, {"a": 5001, "b": 1}]
-SETS_TYPED_THOROUGH = SETS_TYPED + [{"a": 6001, "b": 1}, {"a": 7001, "b": 1}, {"a": 2001, "b": 2}]
+SETS_TYPED_THOROUGH = SETS_TYPED + [{"a": 6001, "b": 1}, {"a": 7001, "b": 1}]
 SETS_LIMIT_QUICK = [{"a": 1, "b": 0}, {"a": 2, "b": 0}, {"a": 0, "b": 1}]
 SETS_LIMIT_THOROUGH = SETS_LIMIT_QUICK + [{"a": 0, "b": 0}]
 SETS_VIEWS = [{"a": 1, "b": 1}, {"a": 1, "b": 2}, {"a": 2, "b": 1}]
